@@ -26,7 +26,7 @@ BIG_KINDS = ["filter", "project", "join", "join-outer", "join-right", "join-righ
 def guard_table():
     """static decision table: operator -> does execute() start with check_partition? how is output_partitions declared?"""
     rows = []
-    for f in sorted(glob.glob("/repo/src/**/*.rs", recursive=True)):
+    for f in sorted(glob.glob(vlib.REPO + "/src/**/*.rs", recursive=True)):
         src = open(f, errors="replace").read()
         for m in re.finditer(r"impl\s+PhysicalOperator\s+for\s+(\w+)\s*\{", src):
             name = m.group(1)
@@ -47,7 +47,7 @@ def guard_table():
                 t = re.sub(r"//[^\n]*", "", op.group(1))
                 t = " ".join(t.split())
                 decl = t[:160]
-            rows.append({"operator": name, "file": os.path.relpath(f, "/repo"), "guard_first": "check_partition(self, partition)?" in first,
+            rows.append({"operator": name, "file": os.path.relpath(f, vlib.REPO), "guard_first": "check_partition(self, partition)?" in first,
                          "first_statement": first[:80], "output_partitions": decl})
     return rows
 
